@@ -462,6 +462,8 @@ def discharge_auto(ctx, site):
             bs = term_sig_(strip(base))
             if s.startswith("some(next(") and ("end: len(%s)" % bs) in s and "start: 0" in s:
                 return "A2", "index iterates 0..len(base)"
+            if s.startswith("some(next(") and ("end: some(position(%s, " % bs) in s and "start: 0" in s:
+                return "A2", "index iterates 0..position found in the same base (position < len(base))"
             uix = unwrap_ovf(ix)
             # base[len(base) - j] under len(base) > j-1
             if uix[0] == "bin" and uix[1] == "Sub" and uix[2][0] == "len" and same(uix[2][1], base):
@@ -544,8 +546,6 @@ def panic_rule(ctx, prop, rule, entries, floor=0, skip_fns=(), only_fn=None):
     return n_sites, stats
 
 
-CLAIMED = False
-NA_REASON = "panic-site engine being built"
 
 
 # ===========================================================================
@@ -619,8 +619,6 @@ def r4(ctx):
 
 RULES = [r1, r3, r4]
 CONTROLS = ["c09_unguarded_index", "c09_loop_cannot_exit"]
-CLAIMED = False
-NA_REASON = "rules C09.R1/R3/R4 are wired; R1 fires on the unchanged tree (three unguarded panic sites) and is being triaged before the property is claimed"
 EXPLANATION = ("C09 (no peer request or proof can panic or hang the node): enumerates every panic-capable construct (bounds / subtraction / division asserts, unwrap/expect, Index on Vec/slice, "
                "panic! entry points, RefCell borrows, drain/split/pow) in the call-graph closure of create_proof and verify_and_apply_proof and requires each to be discharged by constant operands "
                "(A1), an automatically found dominating comparison guard over the same terms (A2), a reviewed entry whose required guard is re-verified to dominate (A3) or a reviewed invariant "
